@@ -12,7 +12,7 @@ EXTENDS Naturals, Sequences, FiniteSets, TLC, Json
 CONSTANTS Chan,        \* channel ids
           Peer,        \* server side: client entities
           MaxOps,      \* length of a behaviour
-          Impl         \* "Design" | "KeepOnConnecting" (seed C13_6) | "KeepOnStop"
+          Impl         \* "Design" | "KeepOnConnecting" (seed C13_6) | "KeepOnStop" | "PurgeTwo" (seed C09_8)
 
 Status == {"Disconnected", "Connecting", "Connected"}
 
@@ -48,7 +48,8 @@ CSetStatus(s) ==
     /\ LET leaving == cst = "Connected" /\ s # "Connected"
            keep == \/ ~leaving
                    \/ (Impl = "KeepOnConnecting" /\ s = "Connecting")
-       IN /\ cin' = IF keep THEN cin ELSE [c \in Chan |-> <<>>]
+       IN /\ cin' = IF keep THEN cin
+                  ELSE [c \in Chan |-> IF Impl = "PurgeTwo" /\ c >= 2 THEN cin[c] ELSE <<>>]  \* seed C09_8
           /\ cout' = IF keep THEN cout ELSE <<>>
           /\ cdirty' = IF keep THEN cdirty ELSE FALSE
     /\ cst' = s
